@@ -288,7 +288,9 @@ def cases(tier):
       for ub in (True, False):
         if cls in ("Activation", "BatchNormalization", "AveragePooling2D", "GlobalAveragePooling2D", "Flatten", "ReLU", "ReLU_leaky", "LeakyReLU") and not ub:
           continue
-        for act in ("relu", "linear", "softmax"):
+        # "elu": contains the letters of "relu" without being it (seed c12-7: a substring test in quantize_activation);
+        # tanh / sigmoid: the other two names quantize_activation rewrites
+        for act in ("relu", "linear", "softmax", "elu", "tanh", "sigmoid"):
           if cls in ("BatchNormalization", "AveragePooling2D", "GlobalAveragePooling2D", "Flatten", "ReLU", "ReLU_leaky", "LeakyReLU") and act != "relu":
             continue
           out.append(Case(PROP, MQ, "%s_%s_bias%d_%s" % (cls, sel, ub, act), mq_scenario(cls, sel, ub, act, False),
